@@ -127,7 +127,12 @@ func c12ForeignPEM(alias string) []byte {
 	if err != nil {
 		der, _ = x509.CreateCertificate(rand.Reader, tmpl, tmpl, signerPublic(signer), signer)
 	}
-	return append(refx509.EncodePem("CERTIFICATE", der), refx509.EncodePem("PRIVATE KEY", keyDER)...)
+	out := append(refx509.EncodePem("CERTIFICATE", der), refx509.EncodePem("PRIVATE KEY", keyDER)...)
+	if alias == "root" || alias == "leaf" || alias == "subb" || alias == "extra" {
+		// some tools leave a remark behind the last block; the artifact is complete all the same
+		out = append(out, []byte("exported by the key store tool, slot 3\n")...)
+	}
+	return out
 }
 
 type zeroReader struct{}
@@ -517,7 +522,7 @@ func c12Oracle(x *engine.Ctx, s *hstate, before *hstate, res drive.Result, runSt
 		// its configuration differs. Judged on the file as it was BEFORE the run - a refreshed one carries a hash line afterwards.
 		if bf, ok := before.W.Files[ArtifactPath(c.Path)]; ok {
 			pb := refx509.SplitPem(bf.Data)
-			complete := pb.HashLine == nil && pb.NumCerts > 0 && (pb.NumKeys > 0 || pb.NumReqs > 0) && !pb.Trailing
+			complete := pb.HashLine == nil && pb.NumCerts > 0 && (pb.NumKeys > 0 || pb.NumReqs > 0)
 			if complete && !bytes.Equal(bf.Data, s.W.Files[ArtifactPath(c.Path)].Data) {
 				// legitimate only if its issuer was regenerated or is newer
 				issuerRegen := c.Issuer != "" && res.Planned(c.Issuer)
